@@ -105,6 +105,11 @@ PROPS["C12"]["props"] = ["Props/C12.v"]
 PROPS["C15"]["props"] = ["Props/C15.v", "Props/C15a.v", "Props/C15b.v", "Props/C15c.v"]
 PROPS["C01"]["props"] = PROPS["C01"]["props"] + ["Props/C01b.v"]
 PROPS["C09"]["props"] = PROPS["C09"]["props"] + ["Props/C09b.v"]
+PROPS["C09"]["props"] = PROPS["C09"]["props"] + ["Props/C09d.v"]   # lexical side: whitespace invariance for every input (fuel independence)
+PROPS["C09"]["tables"] = ["T1", "T2", "T3", "T4", "T5"]
+PROPS["C09"]["assumptions"] = PROPS["C09"]["assumptions"] + [
+    "lexical side (Props/C09d.v): for EVERY input the lexical parser model's result depends on the whitespace-free text only (idealize_env s = idealize_env s' -> lex_parse s = lex_parse s'; inserting any White_Space code points anywhere changes nothing), proved via fuel independence of the term layer; hypothesis: non-empty opening brackets (true of the shipped tables by computation)",
+]
 PROPS["C15"]["run"] = ["Run/EnumRun.v", "Run/LexRun.v"]
 PROPS["C15"]["tables"] = ["T1", "T2", "T3", "T4", "T5"]
 
@@ -128,6 +133,10 @@ PROPS["C03"] = {
         "known classes K1-K3 (inherent ambiguities of the surface syntax, listed under C01) are filtered from the text stream; K1 reappears as C03_fold_K1_witness",
     ],
 }
+PROPS["C03"]["props"] = PROPS["C03"]["props"] + ["Props/C03c.v"]   # value level: sentences and tasks, ASCII / LaTeX
+PROPS["C03"]["assumptions"] = PROPS["C03"]["assumptions"] + [
+    "VALUE level (Props/C03c.v), ASCII and LaTeX: for every well-formed value the lexical parser reads the enum formatter's text (and every text with the same whitespace-free form) as lex_of_narsese v and folding returns v -- unconditional (oracle hypotheses only); with the enum side `parse_narsese (fmt_narsese v) = POk v` (C01 for whole values) as the explicit premise Henum both pipelines return v (C03_value_ascii_latex); without Henum both pipelines return v for any writing of the term (re-spaced, derived copulas) under the decidable sentence-level back-off condition sent_unamb (C03c_agree_value_tree_ascii_latex). Han: the value-level table conditions fail (K2, K5), nothing is claimed",
+]
 PROPS["C05F"] = {
     "props": ["Props/C05F.v"],
     "run": ["Run/FoldRun.v"],
